@@ -205,12 +205,13 @@ func decodeBinary(oid uint32, b []byte) (Value, error) {
 }
 
 func parseFloatText(s string, bits int) (float64, error) {
-	switch s {
-	case "NaN":
+	// PostgreSQL's float input accepts these spellings case-insensitively
+	switch strings.ToLower(s) {
+	case "nan":
 		return math.NaN(), nil
-	case "Infinity", "inf", "+Infinity":
+	case "infinity", "inf", "+infinity", "+inf":
 		return math.Inf(1), nil
-	case "-Infinity", "-inf":
+	case "-infinity", "-inf":
 		return math.Inf(-1), nil
 	}
 	for i := 0; i < len(s); i++ {
